@@ -144,7 +144,7 @@ def run(ctx) -> None:
     for s in sc:
         if s.path.kind != "return":
             continue
-        configured = bool(s.cfg["config"])
+        configured = "valid_addr_range" in s.cfg["config"]
         cons = [e.obj for e in s.path.events if e.kind == "construct" and e.cls == "CompleteConsumer"]
         obs = cons[-1].fields.get("instruction_observers") if cons else None
         names = [o.cls.name for o in obs.items] if isinstance(obs, ListV) else []
